@@ -133,8 +133,13 @@ func racingCallers(c *Ctx, rounds, callers int) {
 		for r := 0; r < rounds && len(problems) == 0; r++ {
 			ctx, cancel := context.WithCancel(context.Background())
 			src := kcache.NewVerifSource(ctx, qlog.Silent(), (&Filt{Tag: FNull}).Go())
+			// the source's cache holds one object the whole time: a read that
+			// succeeds returns it, also when it races with the shutdown
+			held := (&Obj{ID: 1, Kind: KPod, NS: 1, NM: 1, RV: "1", Spec: SPod}).Go()
+			src.CacheActor().Update(kcache.NewEvent(kcache.EventTypeCreate, held))
 			src.MakeReady()
 			var returned atomic.Int64
+			var wrongReads atomic.Int64
 			var handed sync.Map
 			start := make(chan struct{})
 			for k := 0; k < callers; k++ {
@@ -157,8 +162,15 @@ func racingCallers(c *Ctx, rounds, callers int) {
 							}
 							handed.Store(cl.Done(), "clone")
 						default:
-							if _, err := src.Cache().List(); err != nil {
+							l, err := src.Cache().List()
+							if err != nil {
 								return
+							}
+							if len(l) != 1 {
+								wrongReads.Add(1)
+							}
+							if o, err := src.Cache().Get(Str(1), Str(1)); err == nil && o == nil {
+								wrongReads.Add(1)
 							}
 						}
 					}
@@ -175,6 +187,9 @@ func racingCallers(c *Ctx, rounds, callers int) {
 				src.Stop()
 			}
 			sched.Settle()
+			if n := wrongReads.Load(); n > 0 {
+				problems = append(problems, fmt.Sprintf("%d reads that reported success while the source was stopping did not return the object the cache held the whole time (round %d)", n, r))
+			}
 			if n := int(returned.Load()); n < callers {
 				problems = append(problems, fmt.Sprintf("%d of %d callers of Subscribe()/Clone()/Cache().List() are still blocked after the source stopped and everything settled (round %d)", callers-n, callers, r))
 			}
